@@ -29,4 +29,20 @@ def post(ctx):
 
 
 def run_one(t):
+    if t.weighted([6, 1], "population group") == 1:
+        # the synthetic peer: PDUs of every kind with perturbed ids / sequence numbers reach busy handlers (plain shell)
+        from cfdpsim.runner import from_world
+        from props.synthpop import synthetic
+
+        ctx = synthetic(t, attach, force={"msgs": 0}, misroute=False, on_inject=lambda ctx, rec, notes: None)
+        w = ctx.w
+        try:
+            for m in w.monitors:
+                f = getattr(m, "on_end", None)
+                if f:
+                    f(w)
+            post(ctx)
+            return from_world(w, ctx.pop, ctx.nontrivial)
+        finally:
+            w.close()
     return insitu.run(t, {"faultfree": 5, "bounded_faults": 2, "cancel": 2, "chaos": 2}, attach, post=post)
